@@ -124,7 +124,11 @@ impl TimeDelta {
         let mut unit = String::with_capacity(2);
         while let Some((i, mut ch)) = iter.next() {
             if !ch.is_ascii_digit() && i != 0 {
-                let n = duration[start..i].parse::<i64>().unwrap();
+                let n = duration[start..i].parse::<i64>().map_err(|_| {
+                    TError::ParseError(
+                        format!("expected an integer before the unit in '{duration}'").into(),
+                    )
+                })?;
                 loop {
                     if ch.is_ascii_alphabetic() {
                         unit.push(ch)
@@ -143,27 +147,37 @@ impl TimeDelta {
                 }
                 tensure!(!unit.is_empty(), ParseError:"expected a unit in the duration string");
 
+                // accumulate with checked arithmetic: an out-of-range total is an error
+                let add = |acc: i64, mul: i64| n.checked_mul(mul).and_then(|v| acc.checked_add(v));
+                let add_months = |acc: i32, mul: i32| {
+                    i32::try_from(n)
+                        .ok()
+                        .and_then(|v| v.checked_mul(mul))
+                        .and_then(|v| acc.checked_add(v))
+                };
+                let ovf = || TError::ParseError(format!("duration '{duration}' is out of range").into());
                 match unit.as_str() {
-                    "ns" => nsecs += n,
-                    "us" => nsecs += n * NANOS_PER_MICRO,
-                    "ms" => nsecs += n * NANOS_PER_MILLI,
-                    "s" => secs += n,
-                    "m" => secs += n * SECS_PER_MINUTE,
-                    "h" => secs += n * SECS_PER_HOUR,
-                    "d" => secs += n * SECS_PER_DAY,
-                    "w" => secs += n * SECS_PER_WEEK,
-                    "mo" => months += n as i32,
-                    "y" => months += n as i32 * 12,
+                    "ns" => nsecs = add(nsecs, 1).ok_or_else(ovf)?,
+                    "us" => nsecs = add(nsecs, NANOS_PER_MICRO).ok_or_else(ovf)?,
+                    "ms" => nsecs = add(nsecs, NANOS_PER_MILLI).ok_or_else(ovf)?,
+                    "s" => secs = add(secs, 1).ok_or_else(ovf)?,
+                    "m" => secs = add(secs, SECS_PER_MINUTE).ok_or_else(ovf)?,
+                    "h" => secs = add(secs, SECS_PER_HOUR).ok_or_else(ovf)?,
+                    "d" => secs = add(secs, SECS_PER_DAY).ok_or_else(ovf)?,
+                    "w" => secs = add(secs, SECS_PER_WEEK).ok_or_else(ovf)?,
+                    "mo" => months = add_months(months, 1).ok_or_else(ovf)?,
+                    "y" => months = add_months(months, 12).ok_or_else(ovf)?,
                     unit => tbail!(ParseError:"unit: '{}' not supported", unit),
                 }
                 unit.clear();
             }
         }
-        let duration = Duration::seconds(secs) + Duration::nanoseconds(nsecs);
-        Ok(TimeDelta {
-            months,
-            inner: duration,
-        })
+        let inner = Duration::try_seconds(secs)
+            .and_then(|d| d.checked_add(&Duration::nanoseconds(nsecs)))
+            .ok_or_else(|| {
+                TError::ParseError(format!("duration '{duration}' is out of range").into())
+            })?;
+        Ok(TimeDelta { months, inner })
     }
 
     #[inline(always)]
